@@ -1,6 +1,9 @@
 package main
 
 import (
+	"time"
+	"io"
+	"bytes"
 	"unsafe"
 	"fmt"
 	"strings"
@@ -30,7 +33,7 @@ func allViews(pj *simdjson.ParsedJson) string {
 
 func checkC16(c *Ctx) {
 	r := c.Rng
-	c.Ev.Coverage.Rule = "(i) with string copying (default, explicit, or the last of several WithCopyStrings options), after Parse/ParseND returns the caller's buffer is overwritten (zeros, 0xff, random, shifted copy of itself) and every read path (traversal, Interface, ForEach), MarshalJSON and a serialize round trip must be unchanged; (ii) copy and no-copy parses expose the same document while the input is intact; (iii) Clone(nil), Clone(reused destination) and Clone(&zero value): random edit histories applied alternately to the original and to the clone, each compared after every step against its own expected document, the other must not move; buffers of original and clone must not alias; (iv) one Object/Array destination value reused across documents that share buffers (Parse with reuse in no-copy mode, Clone into an earlier clone, Deserialize into an earlier result) reads the current document. non-trivial = document with at least one string; distinct = by (document, overwrite kind / edit history)"
+	c.Ev.Coverage.Rule = "(0) every value ParseNDStream delivers is kept and read only after the stream ended (one line per Read and other fragmentations, nothing handed back for reuse); (i) with string copying (default, explicit, or the last of several WithCopyStrings options), after Parse/ParseND returns the caller's buffer is overwritten (zeros, 0xff, random, shifted copy of itself) and every read path (traversal, Interface, ForEach), MarshalJSON and a serialize round trip must be unchanged; (ii) copy and no-copy parses expose the same document while the input is intact; (iii) Clone(nil), Clone(reused destination) and Clone(&zero value): random edit histories applied alternately to the original and to the clone, each compared after every step against its own expected document, the other must not move; buffers of original and clone must not alias; (iv) one Object/Array destination value reused across documents that share buffers (Parse with reuse in no-copy mode, Clone into an earlier clone, Deserialize into an earlier result) reads the current document. non-trivial = document with at least one string; distinct = by (document, overwrite kind / edit history)"
 	n := c.N(1200, 15000)
 	var cloneDst *simdjson.ParsedJson
 	for i := 0; i < n; i++ {
@@ -235,6 +238,7 @@ func checkC16(c *Ctx) {
 			c.Ev.Sample(map[string]interface{}{"doc": printable(trunc(string(doc), 100)), "ops": ops})
 		}
 	}
+	c.c16StreamValuesKept()
 	c.c16ReusedDestinations(c.N(300, 4000))
 }
 
@@ -295,6 +299,109 @@ func overlapping(a, b *simdjson.ParsedJson) string {
 // by Parse in no-copy mode, Clone into an earlier clone, Deserialize into an
 // earlier result): what is read through the reused destination must be the
 // CURRENT document, exactly what a fresh destination reads.
+// c16StreamValuesKept: every value ParseNDStream delivers is kept and read only after the
+// stream has ended (nothing is handed back through the reuse channel): what was delivered
+// must not be overwritten by the chunks parsed later.
+func (c *Ctx) c16StreamValuesKept() {
+	r := c.Rng
+	for round := 0; round < c.N(6, 40); round++ {
+		var sb strings.Builder
+		var want []string
+		n := 200 + r.Intn(600)
+		for l := 0; l < n; l++ {
+			d := genDoc(r, &GenOpts{MaxDepth: 3, MaxFan: 3, TopFan: 4})
+			if bytes.IndexByte(d, '\n') >= 0 {
+				continue
+			}
+			out := implParse(d, false, true, nil)
+			if out.Err {
+				continue
+			}
+			dd, err := dumpDoc(out.PJ)
+			if err != nil {
+				continue
+			}
+			sb.Write(d)
+			sb.WriteByte('\n')
+			want = append(want, dd)
+		}
+		data := []byte(sb.String())
+		sizes := [][]int{{1}, {37}, {200, 3, 1000}}[round%3]
+		if round%3 == 0 {
+			// one line per Read
+			sizes = nil
+		}
+		var rd io.Reader = &fragReader{data: data, sizes: sizes, failAt: -1}
+		if sizes == nil {
+			rd = &lineReader{data: data}
+		}
+		res := make(chan simdjson.Stream, 4)
+		simdjson.ParseNDStream(rd, res, nil)
+		var kept []*simdjson.ParsedJson
+		var finalErr error
+		deadline := time.After(180 * time.Second)
+	loop:
+		for {
+			select {
+			case v, ok := <-res:
+				if !ok {
+					break loop
+				}
+				if v.Error != nil {
+					finalErr = v.Error
+					continue
+				}
+				kept = append(kept, v.Value)
+			case <-deadline:
+				c.Violate("stream", "ParseNDStream did not finish", "c16-stream-hang", map[string]interface{}{"round": round})
+				return
+			}
+		}
+		var got strings.Builder
+		for _, pj := range kept {
+			d, err := dumpDoc(pj)
+			if err != nil {
+				got.WriteString("DUMPERR")
+			}
+			got.WriteString(d)
+		}
+		c.Ev.Count("stream-values-kept", append([]byte{byte(round)}, data...), len(kept) >= 2)
+		if finalErr != io.EOF || got.String() != strings.Join(want, "") {
+			g, w := got.String(), strings.Join(want, "")
+			k := 0
+			for k < len(g) && k < len(w) && g[k] == w[k] {
+				k++
+			}
+			c.Violate("aliasing", "values delivered by ParseNDStream and read after the stream had ended differ from the stream's documents (overwritten by later chunks?)", "stream-values-kept",
+				map[string]interface{}{"lines": len(want), "values": len(kept), "final_error": fmt.Sprint(finalErr), "first_difference_at": k, "delivered_there": trunc(g[k:], 200), "expected_there": trunc(w[k:], 200), "fragment_sizes": fmt.Sprint(sizes)})
+			return
+		}
+	}
+}
+
+// lineReader hands out one line per Read.
+type lineReader struct {
+	data []byte
+	pos  int
+}
+
+func (l *lineReader) Read(p []byte) (int, error) {
+	if l.pos >= len(l.data) {
+		return 0, io.EOF
+	}
+	e := bytes.IndexByte(l.data[l.pos:], '\n')
+	n := len(l.data) - l.pos
+	if e >= 0 {
+		n = e + 1
+	}
+	if n > len(p) {
+		n = len(p)
+	}
+	copy(p, l.data[l.pos:l.pos+n])
+	l.pos += n
+	return n, nil
+}
+
 func (c *Ctx) c16ReusedDestinations(n int) {
 	r := c.Rng
 	// one destination PER ROUTE: a destination must meet the same internal buffers again,
